@@ -178,27 +178,40 @@ Definition qsqrt (x : Q) : option Q :=
 
 Inductive cholres := CholOk (L : matrix) | CholNotPD | CholIrrational | CholUnsupported.
 
-(** one pivot: LAPACK potrf stops as soon as a radicand is not positive *)
-Definition pivot (rad : Q) (k : Q -> cholres) : cholres :=
-  if Qle_bool rad 0 then CholNotPD
-  else match qsqrt rad with Some r => k r | None => CholIrrational end.
+(** The radicands of the factorisation (the squares of the diagonal of L), computed without square
+    roots: r1 = c11, r2 = c22 - c21^2/r1, r3 = c33 - c31^2/r1 - t^2/r2 with t = c32 - c31 c21/r1.
+    LAPACK potrf fails as soon as one of them is not positive, in this order. *)
+Definition rad1 (C : matrix) : Q := mget C 0 0.
+Definition rad2 (C : matrix) : Q := mget C 1 1 - mget C 1 0 * mget C 1 0 / rad1 C.
+Definition t32 (C : matrix) : Q := mget C 2 1 - mget C 2 0 * mget C 1 0 / rad1 C.
+Definition rad3 (C : matrix) : Q := mget C 2 2 - mget C 2 0 * mget C 2 0 / rad1 C - t32 C * t32 C / rad2 C.
+
+Definition positive (x : Q) : bool := negb (Qle_bool x 0).
 
 Definition chol (k : nat) (C : matrix) : cholres :=
   match k with
-  | 1%nat => pivot (mget C 0 0) (fun l11 => CholOk [[l11]])
+  | 1%nat =>
+      if negb (positive (rad1 C)) then CholNotPD else
+      match qsqrt (rad1 C) with
+      | Some l11 => CholOk [[l11]]
+      | None => CholIrrational
+      end
   | 2%nat =>
-      pivot (mget C 0 0) (fun l11 =>
-      let l21 := mget C 1 0 / l11 in
-      pivot (mget C 1 1 - l21 * l21) (fun l22 =>
-      CholOk [[l11; 0]; [l21; l22]]))
+      if negb (positive (rad1 C)) then CholNotPD else
+      if negb (positive (rad2 C)) then CholNotPD else
+      match qsqrt (rad1 C), qsqrt (rad2 C) with
+      | Some l11, Some l22 => CholOk [[l11; 0]; [mget C 1 0 / l11; l22]]
+      | _, _ => CholIrrational
+      end
   | 3%nat =>
-      pivot (mget C 0 0) (fun l11 =>
-      let l21 := mget C 1 0 / l11 in
-      let l31 := mget C 2 0 / l11 in
-      pivot (mget C 1 1 - l21 * l21) (fun l22 =>
-      let l32 := (mget C 2 1 - l31 * l21) / l22 in
-      pivot (mget C 2 2 - l31 * l31 - l32 * l32) (fun l33 =>
-      CholOk [[l11; 0; 0]; [l21; l22; 0]; [l31; l32; l33]])))
+      if negb (positive (rad1 C)) then CholNotPD else
+      if negb (positive (rad2 C)) then CholNotPD else
+      if negb (positive (rad3 C)) then CholNotPD else
+      match qsqrt (rad1 C), qsqrt (rad2 C), qsqrt (rad3 C) with
+      | Some l11, Some l22, Some l33 =>
+          CholOk [[l11; 0; 0]; [mget C 1 0 / l11; l22; 0]; [mget C 2 0 / l11; t32 C / l22; l33]]
+      | _, _, _ => CholIrrational
+      end
   | _ => CholUnsupported
   end.
 
